@@ -58,7 +58,7 @@ def anteMsg (s : St) : Op → St × Option LErr
       | .submit => if canonical then (s, some .misbehaviourDisabled) else (s, none)
       | .viaUpdate => if canonical then (s, some .misbehaviourDisabled) else (s, none)
       | _ => (s, none))
-  | .chanAck ch _ =>
+  | .chanAck ch .ack _ =>
     match s.chans.find? (·.id == ch) with
     | none => (s, some .chanUnknown)
     | some c =>
@@ -95,9 +95,11 @@ def execMsg (s : St) : Op → St × Res
       | .viaWrappedNested => (s, .msg .noSigner)
       | _ => (s, .msg .internal))        -- refused by the ante chain: not reached
   | .chanInit c => chanInit s c
-  | .chanAck ch ibc =>
+  | .chanAck ch w ibc =>
     match s.chans.find? (·.id == ch) with
-    | none => (s, .msg .chanUnknown)     -- refused by the ante chain: not reached
+    | none => (match w with
+      | .ack => (s, .msg .chanUnknown)   -- refused by the ante chain: not reached
+      | _ => (s, .msg .ibc))
     | some _ =>
       if ibc then ({ s with chans := s.chans.map (fun x => if x.id == ch then { x with isOpen := true } else x) }, .ok)
       else (s, .msg .ibc)
